@@ -49,6 +49,14 @@ def main():
             elif op["kind"] == "parse":
                 from suit_generator.suit.envelope import SuitEnvelopeTagged
                 out[oid] = json.dumps(SuitEnvelopeTagged.from_cbor(bytes.fromhex(op["bytes"])).to_obj(), sort_keys=False)
+            elif op["kind"] == "parse_file":
+                from suit_generator import cmd_parse
+                dd = os.path.join(work, f"pf{oid}")
+                os.makedirs(dd, exist_ok=True)
+                inp, outp = os.path.join(dd, "in.suit"), os.path.join(dd, "out." + op["fmt"])
+                open(inp, "wb").write(bytes.fromhex(op["bytes"]))
+                cmd_parse.main(input_file=inp, output_file=outp, output_format=op["fmt"], parse_hierarchy=op["hierarchy"])
+                out[oid] = open(outp).read()
             elif op["kind"] == "mpi":
                 from suit_generator import cmd_mpi
                 o = os.path.join(work, f"{oid}.hex")
